@@ -705,6 +705,19 @@ class World(object):
     def note(self, a):
         self.hist_so_far.append(a)
 
+    def peek(self):
+        """Read-only exports of every live document / bundle (PROV-N text, record reprs).  Whatever
+        they compute must not survive a later modification."""
+        for c in list(self.h.values()):
+            try:
+                if not isinstance(c, Loose):
+                    c.get_provn()
+                for r in c.get_records():
+                    r.get_provn()
+                    repr(r)
+            except Exception:
+                pass
+
     def named_handles(self, a):
         hs = [a.get(k) for k in ("h", "arg", "other")] + list(a.get("hs", []))
         for k in ("r",):
@@ -802,6 +815,8 @@ def run_behaviour(tid, init, hist, frm, seed=0):
     w = World(init, seed, tid)
     steps = []
     for i, a in enumerate(hist, start=1):
+        if tid % 4 == 1:
+            w.peek()          # a user who prints the documents between any two calls
         if i < frm:
             thunk = w.prepare_total(a)
             try:
